@@ -271,6 +271,14 @@ fn visit(which: Which, p: &Pos, b: &Board, mg: &MoveGenerator, st: &mut Stats, o
 /// position under test.
 fn history(which: Which, start: &Pos, rng: &mut Rng, plies: usize, mg: &MoveGenerator, st: &mut Stats, origin: &str) {
     let mut cur = start.clone();
+    // the move counters of a FEN are part of the input: give half of the games hostile ones
+    // (the legal moves and successors of a position do not depend on them below the 75-move limit)
+    if rng.chance(1, 2) {
+        cur.half = *rng.pick(&[0u32, 1, 49, 50, 98, 99, 100, 101, 120]);
+        cur.full = *rng.pick(&[1u32, 2, 60, 255, 256, 1000, 5899]);
+        st.bump("games_started_with_hostile_move_counters");
+    }
+    let start = &cur.clone();
     let mut gb = eng::board_from_pos(start);
     let mut played: Vec<String> = vec![];
     st.bump("histories");
@@ -278,7 +286,10 @@ fn history(which: Which, start: &Pos, rng: &mut Rng, plies: usize, mg: &MoveGene
         // position under test: the in-place board (and, every 4th ply, one rebuilt from FEN)
         visit(which, &cur, &gb, mg, st, origin);
         if ply % 4 == 0 && which != Which::C02 {
-            let fb = eng::board_from_pos(&cur);
+            // below the 75-move limit (at 150 the game is over by rule and "legal moves" is moot)
+            let mut capped = cur.clone();
+            capped.half = capped.half.min(140);
+            let fb = eng::board_from_pos(&capped);
             visit(which, &cur, &fb, mg, st, "rebuilt_from_fen");
         }
         let legal = cur.legal_moves();
